@@ -478,7 +478,8 @@ class Factory:
                 cmd.append(mp)
                 env = dict(os.environ, CARGO_MANIFEST_DIR=sdir, RUST_BACKTRACE="0")
                 env.update(getattr(self, "extra_env", {}))
-                p = subprocess.run(cmd, capture_output=True, text=True, env=env, cwd=sdir)
+                # rustc's working directory is not the crate's manifest directory in general (cargo runs it from the workspace root)
+                p = subprocess.run(cmd, capture_output=True, text=True, env=env, cwd=getattr(self, "rustc_cwd", None) or sdir)
                 if p.returncode == 0:
                     return si, bad, (None if check_only else out)
                 newbad = 0
@@ -520,6 +521,7 @@ class Factory:
         with ThreadPoolExecutor(min(self.nshards, NCPU)) as ex:
             for si, bad, out in ex.map(build_shard, list(enumerate(shards))):
                 for cid in shards[si]:
+                    self.shard_of[cid] = si
                     if cid in bad:
                         verdict[cid] = bad[cid]
                     elif isinstance(out, dict):
